@@ -2,6 +2,9 @@
 # usage: validate_mutants.sh <out-file> <prop:k> ...   (validates sub-agent mutants in a scratch worktree, runs our checks on them)
 OUT=$1; shift
 WV=/tmp/wv
+# run our checks from a frozen copy of /verif so that live edits do not disturb the validation
+SNAP=/tmp/vsnap
+rm -rf $SNAP; rsync -a --exclude .git --exclude .scratch --exclude replays /verif/ $SNAP/
 git -C /repo worktree remove --force $WV 2>/dev/null; rm -rf $WV
 git -C /repo worktree add -q --detach $WV HEAD || exit 1
 demo() { # prop k
@@ -20,12 +23,12 @@ for pk in "$@"; do
   echo "=== $p mutant$k" >> $OUT
   if ! git apply _out/mutant$k.diff 2>>$OUT; then echo "APPLY-FAILED" >> $OUT; continue; fi
   demo $p $k; echo "demo-with-mutant rc=$? ($(tail -1 /tmp/demo.log | cut -c1-100))" >> $OUT
-  (cd /verif && .venv/bin/python bin/baseline_check.py $WV 2>&1 | head -3 | tr '\n' ' ') >> $OUT; echo >> $OUT
+  (cd $SNAP && .venv/bin/python bin/baseline_check.py $WV 2>&1 | head -3 | tr '\n' ' ') >> $OUT; echo >> $OUT
   for c in ${CHECKS:-$p}; do
-    (cd /verif && PYVC_REPO=$WV ./check $c 2>&1 | grep -E "VIOLATION|HELD|UNDECIDED|CHECKER" | cut -c1-160 | sed "s/^/  check $c: /") >> $OUT
+    (cd $SNAP && PYVC_REPO=$WV ./check $c 2>&1 | grep -E "VIOLATION|HELD|UNDECIDED|CHECKER" | cut -c1-160 | sed "s/^/  check $c: /") >> $OUT
   done
   cd $WV && git checkout -q -- . 
   demo $p $k; echo "demo-clean rc=$?" >> $OUT
 done
-cd / ; git -C /repo worktree remove --force $WV; rm -rf $WV
+cd / ; git -C /repo worktree remove --force $WV; rm -rf $WV $SNAP
 echo DONE >> $OUT
